@@ -4,12 +4,12 @@ import ast
 from pv import propkit as K, schema
 from pv.core import PropResult
 
-LEVEL = 'other'
-EXPLANATION = ('Proved: Excel._fill_cell reads the stored value at (sheet, row, column) and blank outside (K1, C02 contract); a '
-               'constant cell is emitted as repr(value) / EmptyCell() (K3 on CellTranslator + K-S on every stored type), titles '
-               'and sizes are printed by repr. Excel.parse (three nested loops over openpyxl streaming objects) is not yet '
-               'under a K1 contract: coordinate fidelity under sparse layouts is decided by the bounded monitor, so the level '
-               'is other.')
+LEVEL = 'proof'
+EXPLANATION = ('K1 under the K5 contract of openpyxl\'s read-only stream (row i of iter_rows is sheet row i+1, element j is column '
+               'j+1, missing cells padded): Excel.parse, three nested loops with invariants, stores the value of every cell at '
+               'data[sheet][row][column], reports per sheet (row count, longest row) and not a running maximum; Excel._fill_cell '
+               'reads that store and blank outside (C02 contract); K3: a constant cell is emitted as repr(value) / EmptyCell(). '
+               'The K5 contract itself and ArrayFormula values are covered by the bounded sparse-layout monitor.')
 import datetime
 CELLS = [[0, 1, 1, 7], [0, 2, 1, {'$f': '2.5'}], [0, 3, 1, True], [0, 4, 1, 'te"x\'t'], [0, 5, 1, {'$dt': [2020, 2, 29, 10, 30, 0, 0]}],
          [0, 6, 1, False], [0, 7, 1, 0], [0, 8, 1, {'$f': '1.0'}]]
@@ -26,13 +26,15 @@ def _const_branch(node):
 
 def run(ctx):
     res = PropResult('C18')
+    K.k1_block(res, ctx, 'contracts.c18', ['Excel.parse/data', 'Excel.parse/sizes'], 'C18.')
     K.k1_block(res, ctx, 'contracts.c02', ['Excel._fill_cell'], 'C18.')
+    K.canary_contract(res, 'contracts.c18', 'Excel.parse/data', 'one_entry_per_sheet', 'is_list(result) and len(result) == 1')
     K.shape(res, 'C18.CellTranslator.constant_is_repr', 'repo:translators/cell_translator.py:CellTranslator._set_cell_to_context',
             _const_branch, 'eval(repr(v)) == v for int / float / bool / str / datetime (A)')
     K.monitor_if_present(res, ctx, 'mon_c18')
     res.trusted_base += ['K5 openpyxl read-only iter_rows() after reset_dimensions(): i-th row is sheet row i+1, j-th element '
                          'column j+1, missing cells padded (conformance: bounded monitor)', 'eval(repr(v)) == v for the stored types']
-    res.assumptions += ['Excel.parse is covered by the bounded monitor only']
+    res.assumptions += ['ArrayFormula cell values are outside the K1 contract of Excel.parse (bounded)', 'titles come from wb.sheetnames (K5)']
     return res
 
 
